@@ -814,7 +814,7 @@ class C30(Check):
         "EITHER (executed, only success-or-HTTPInputError and typing asserted): empty control "
         "name, empty filename (treated as plain field by Tornado), preamble / epilogue around "
         "the multipart body, omitted part Content-Type (default type not compared), exactly "
-        "max_parts parts, header sizes in (limit-4, limit]",
+        "max_parts parts",
         "exceptions other than HTTPInputError from a DIRECT parse_multipart_form_data call are "
         "counted (note either:direct:<Type>) but not asserted; the clean-failure claim is "
         "asserted at parse_body_arguments, the entry used by HTTPServerRequest",
@@ -1110,12 +1110,9 @@ class C30(Check):
             # measure, do not trust the arithmetic
             hs = [len(p.split(b"\r\n\r\n")[0]) for p in body.split(b"--" + b.encode() + b"\r\n")[1:]]
             assert max(hs) == H, (hs, H, d)
-            if max(hs) > L:
-                verdict = "reject"
-            elif max(hs) + 4 <= L:
-                verdict = "accept"
-            else:
-                verdict = "either"
+            # "the maximum size of the headers for each part": a header block (without the blank line that
+            # ends it) of exactly L bytes is within the maximum
+            verdict = "reject" if max(hs) > L else "accept"
             return ct, b.encode(), body, items, verdict, {"max_part_header_size": L}
         if d["t"] == "bigbody":
             L = max(d["L"], 100)
